@@ -59,6 +59,10 @@ def harness(tier, seed):
             if not (inst.tour_length_lower_bound <= got <= inst.tour_length_upper_bound):
                 viol.append(("tour-outside-bounds", {**info, "x": list(p)}, f"{got}"))
                 break
+            if not (obj.lower_bound() <= got <= obj.upper_bound()):
+                viol.append(("tour-outside-declared-objective-bounds", {**info, "x": list(p)},
+                             f"{got} not in [{obj.lower_bound()}, {obj.upper_bound()}]"))
+                break
         if len(samples) < 2:
             samples.append({"kind": mode, "n": n, "dtype": str(inst.dtype), "bounds": [lb, ub]})
     seen = set()
